@@ -5,9 +5,10 @@ import subprocess
 import sys
 
 import engine_a
+import engine_b
 import engine_simple
 import scenarios
-from vlib import VERIF, build, log
+from vlib import HOOK_GUARD, VERIF, build, log
 
 CHECKS = {}
 
@@ -84,6 +85,217 @@ def c06(tier, args):
 
 
 # ---------------------------------------------------------------------------
+# engine B: explicit-state search over the real index
+def seqmc_crash(assertions):
+    def f(rc, se):
+        if rc == 45:
+            return "C14"
+        if rc == 43 or rc == -11 or rc == -7 or rc == -4:
+            return "C01"
+        if rc == -6 or rc == 134:
+            return "C16" if assertions else "C01"
+        return None
+    return f
+
+
+SEQMC_ASSUMPTIONS = [
+    "behaviour of a call is a function of the physical tree dump and the arguments (deterministic code); lock version numbers, "
+    "stale array entries beyond the child count, statistics and the QSBR epoch are excluded from the state identity",
+    "universes are finite and hand-designed to force every structural case; keys longer than 12 bytes (40 thorough), memory "
+    "exhaustion and concurrent use are outside this check",
+    "byte-string universes are prefix-free (fixed length or built with one encoder schema)",
+]
+SEQMC_RULE = "closure under arbitrary finite operation sequences per universe (state graph fixpoint):"
+
+
+def _seqmc(prop, tier, variant, extra, us, deep_us=(), indexes=engine_b.INDEXES, assertions=False, label="", extra_runs=()):
+    bins = engine_b.binaries(variant)
+    runs = engine_b.runs_for(us, bins, extra, variant, indexes)
+    for r in runs:
+        r["crash_property"] = seqmc_crash(assertions)
+    if deep_us:
+        druns = engine_b.runs_for(list(deep_us), bins, extra, variant, indexes)
+        for r in druns:
+            r["crash_property"] = seqmc_crash(assertions)
+            r["signature_suffix"] = "@deep-shared-prefix"
+        runs += druns
+    runs += list(extra_runs)
+    return engine_simple.run_protocol_check(prop, tier, runs, SEQMC_RULE, SEQMC_ASSUMPTIONS, engine="seqmc",
+                                            extra_cov=dict(universes=[u["id"] for u in us] + [u["id"] for u in deep_us],
+                                                           index_classes=list(indexes), build_variant=variant))
+
+
+@check("C01")
+def c01(tier, args):
+    us = engine_b.all_universes(tier)
+    deep = engine_b.all_universes(tier, deep=True)
+    if args.only:
+        us = [u for u in us if args.only in u["id"]]
+        deep = [u for u in deep if args.only in u["id"]]
+    return _seqmc("C01", tier, "asan", ["--scans", "1"], us, deep)
+
+
+@check("C02")
+def c02(tier, args):
+    us = engine_b.all_universes(tier)
+    if args.only:
+        us = [u for u in us if args.only in u["id"]]
+    # the complete bound set on every state is expensive: the largest universes keep full scans only
+    big = {"g1-full-256", "g1-i48-i256", "g1-i16-i48", "g1-i16-i48-big"} if tier == "quick" else {"g1-full-256"}
+    small = [u for u in us if u["id"] not in big]
+    return _seqmc("C02", tier, "fast", ["--scans", "2", "--views", "0"], small)
+
+
+@check("C08")
+def c08(tier, args):
+    us = engine_b.all_universes(tier)
+    if args.only:
+        us = [u for u in us if args.only in u["id"]]
+    if tier == "quick":
+        # the universes that contain every allocation pattern (leaf, leaf + I4, leaf + larger node, smaller node on shrink)
+        keep = {"g2-two-level", "g1-i4-i16", "g3-prefix-split", "g4-leaf-split", "g1-i16-i48", "g1-i48-i256", "kv3-two-level",
+                "kv-text", "kv-compound"}
+        us = [u for u in us if u["id"] in keep]
+    extra = [dict(binary=build(**QSBR_FAULT_SPEC), args=[], label="qsbr-fault-and-length-limits", build_spec=QSBR_FAULT_SPEC,
+                  source="engines/seqmc/qsbr_fault.cpp", parallel=16)]
+    return _seqmc("C08", tier, "dbg", ["--scans", "0", "--views", "0", "--faults", "1"], us, assertions=True, extra_runs=extra)
+
+
+QSBR_FAULT_SPEC = dict(name="qsbr_fault", sources=["engines/seqmc/qsbr_fault.cpp"], flags=["-O1", "-D" + HOOK_GUARD])
+
+# ---- C16: the configuration matrix -----------------------------------------
+MATRIX = [(simd, stats, asserts, spin) for simd in ("avx2", "sse41") for stats in (True, False) for asserts in (True, False)
+          for spin in (1, 2)]
+
+
+def matrix_label(c):
+    return "%s-%s-%s-%s" % (c[0], "stats" if c[1] else "nostats", "assert" if c[2] else "ndebug", "pause" if c[3] == 1 else "empty")
+
+
+def matrix_spec(c, index):
+    config = ["-mavx2" if c[0] == "avx2" else "-msse4.1"] + (["-DUNODB_DETAIL_WITH_STATS"] if c[1] else []) + \
+        ["-DUNODB_SPINLOCK_LOOP_VALUE=%d" % c[3]]
+    flags = ["-O1", "-D" + HOOK_GUARD] + ([] if c[2] else ["-DNDEBUG"]) + [engine_b.ONLY[index]]
+    return dict(name="seqmc_mx_%s_%s" % (matrix_label(c), index), sources=["engines/seqmc/seqmc.cpp"], flags=flags, config=config)
+
+
+def matrix_binaries(indexes):
+    from vlib import build_many
+    specs = [(c, i, matrix_spec(c, i)) for c in MATRIX for i in indexes]
+    paths = build_many([sp for (_, _, sp) in specs])
+    return {(matrix_label(c), i): (p, sp) for (c, i, sp), p in zip(specs, paths)}
+
+
+@check("C16")
+def c16(tier, args):
+    indexes = engine_b.INDEXES
+    bins = matrix_binaries(indexes)
+    keep = {"g2-two-level", "g1-i4-i16", "g3-prefix-split", "g1-i16-i48", "kv3-two-level"}
+    if tier == "thorough":
+        keep |= {"g1-i48-i256", "kv1-classes", "kv8-prefix-split", "g4-leaf-split", "three-level", "sparse", "g1-full-256",
+                 "below-i16"}
+    us = [u for u in engine_b.all_universes(tier) if u["id"] in keep]
+    if args.only:
+        us = [u for u in us if args.only in u["id"]]
+    runs = []
+    for c in MATRIX:
+        lab = matrix_label(c)
+        for u in us:
+            # the heavy scan sweep before every mutation only where the scans are cheap
+            big = len(u["base"]) >= 10
+            scan_before = "0" if big else "1"
+            scans = "1" if (big and tier == "quick") else "2"
+            for i in indexes:
+                b, sp = bins[(lab, i)]
+                runs.append(dict(binary=b, args=engine_b.uni_args(u, i) + ["--scans", scans, "--views", "0", "--scan-before", scan_before,
+                                                                          "--transcript", "1"],
+                                 label="%s/%s/%s@%s" % (u["id"], i, u["kind"], lab), env={}, parallel=16, build_spec=sp,
+                                 source="engines/seqmc/seqmc.cpp", crash_property=seqmc_crash(c[2]), property_override="C16",
+                                 signature_suffix="@" + lab, timeout=7200))
+
+    disagreements = []
+
+    def post(results, report):
+        groups = {}
+        for label, res in results.items():
+            run_id, lab = label.split("@")
+            groups.setdefault(run_id, []).append((lab, res))
+        for run_id, members in sorted(groups.items()):
+            ref_lab, ref = members[0]
+            for lab, res in members[1:]:
+                diffs = []
+                if res["transcript"] != ref["transcript"]:
+                    diffs.append("results/scan output")
+                if res["with_stats"] and ref["with_stats"] and res["counters_transcript"] != ref["counters_transcript"]:
+                    diffs.append("statistics counters")
+                same_layout = res["assertions"] == ref["assertions"] and lab.split("-")[0] == ref_lab.split("-")[0]
+                if res["with_stats"] and ref["with_stats"] and same_layout and res["memory_transcript"] != ref["memory_transcript"]:
+                    diffs.append("reported memory use")
+                if diffs:
+                    disagreements.append((run_id, ref_lab, lab, diffs))
+                    what = "configurations %s and %s disagree on %s for %s" % (ref_lab, lab, ", ".join(diffs), run_id)
+                    report.violation("C16", "C16/transcript-mismatch", what,
+                                     dict(engine="seqmc-matrix", run=run_id, configs=[ref_lab, lab], what=what,
+                                          note="re-run ./check C16 --only <universe> to reproduce"), run_id + "-" + lab)
+            # the reference for the stats comparison must itself have stats: compare all stats builds pairwise through the first
+            st = [(l, r) for (l, r) in members if r["with_stats"]]
+            for lab, res in st[1:]:
+                if res["counters_transcript"] != st[0][1]["counters_transcript"]:
+                    what = "configurations %s and %s disagree on statistics counters for %s" % (st[0][0], lab, run_id)
+                    report.violation("C16", "C16/counters-mismatch", what,
+                                     dict(engine="seqmc-matrix", run=run_id, configs=[st[0][0], lab], what=what), run_id + "-" + lab + "-st")
+
+    return engine_simple.run_protocol_check(
+        "C16", tier, runs,
+        "the same deterministic state-graph search (engine B, complete scan bound set, scans also run on the object that is then "
+        "mutated) in all 16 build configurations {AVX2, SSE4.1} x {stats, no stats} x {assertions, NDEBUG} x {PAUSE, EMPTY}; "
+        "per-run transcripts (every result, every scan output, every shape) must be identical across the 16, counters across "
+        "the 8 with statistics, every assertion-enabled process must exit normally:",
+        SEQMC_ASSUMPTIONS + ["reported memory use is compared only among configurations with the same assertion setting and the "
+                             "same SIMD level (assertion builds have larger nodes, AVX2 builds align inode_48 differently)"],
+        engine="seqmc", post=post,
+        extra_cov=lambda: dict(configurations=[matrix_label(c) for c in MATRIX], universes=[u["id"] for u in us],
+                               transcript_groups_compared=len(us) * len(indexes), disagreements=len(disagreements)))
+
+
+
+@check("C10")
+def c10(tier, args):
+    us = engine_b.all_universes(tier)
+    if args.only:
+        us = [u for u in us if args.only in u["id"]]
+    return _seqmc("C10", tier, "fast", ["--scans", "0", "--views", "0"], us)
+
+
+# ---------------------------------------------------------------------------
+# wrap: explicit-state search over the real qsbr_ptr / qsbr_ptr_span
+def wrap_spec(debug):
+    return dict(name="wrap_" + ("debug" if debug else "ndebug"), sources=["engines/wrap/wrap.cpp"],
+                flags=["-O1"] + ([] if debug else ["-DNDEBUG"]), repo_sources=["qsbr.cpp", "qsbr_ptr.cpp"])
+
+
+@check("C17")
+def c17(tier, args):
+    dbg, ndbg = build(**wrap_spec(True)), build(**wrap_spec(False))
+    # thorough: 3 pointer slots (619,000 states) in the assertion-enabled build
+    uni = [] if tier == "quick" else ["--universe", "L3P3S2"]
+    runs = [dict(binary=dbg, args=["--tier", "quick", "--config", "debug"] + uni, label="wrap-debug", build_spec=wrap_spec(True),
+                 source="engines/wrap/wrap.cpp"),
+            dict(binary=ndbg, args=["--tier", "quick", "--config", "ndebug"] + uni, label="wrap-ndebug", build_spec=wrap_spec(False),
+                 source="engines/wrap/wrap.cpp")]
+    return engine_simple.run_protocol_check(
+        "C17", tier, runs,
+        "breadth-first search to the fixpoint over abstract states of pointer/span slots holding REAL qsbr_ptr / qsbr_ptr_span "
+        "objects, every transition replayed on fresh objects and compared with shadow raw pointers; liveness verdicts probed in "
+        "forked children for every state:",
+        ["slots: 2 pointer + 2 span (thorough: 3 + 2), two buffers of 3 elements; one-past-the-end included, nothing outside formed",
+         "operations between distinct objects only (self-assignment is outside the statement)",
+         "assertion-enabled build: the per-thread registry is compared with the shadow multiset after every transition and "
+         "quiescent/pause/resume must abort iff it is non-empty; NDEBUG build: always accepted"],
+        engine="wrap")
+
+
+# ---------------------------------------------------------------------------
 # engine C: exhaustive enumeration of the key codec domains
 def codec_binary():
     return build("codec", ["engines/enum/codec.cpp"], ["-O2"], repo_sources=[])
@@ -124,6 +336,11 @@ def setup():
     engine_a.olc_binary(True)
     engine_a.qsbr_binary(True)
     codec_binary()
+    build(**wrap_spec(True))
+    build(**wrap_spec(False))
+    for v in ("asan", "fast"):
+        engine_b.binaries(v)
+    engine_b.keygen()
     return 0
 
 
@@ -144,13 +361,17 @@ def replay(path):
             return 1 if res["violations"] else 0
         return 1 if rc in (40, 41, 43, 44) or (isinstance(rc, int) and rc < 0) else 3
     if eng in ("enum", "wrap", "seqmc"):
-        b = build(**payload["build_spec"]) if "build_spec" in payload else codec_binary()
+        b = build(**payload["build_spec"]) if payload.get("build_spec") else codec_binary()
         r = subprocess.run([b] + payload["args"] + ["--replay-arg", payload["replay_arg"], "--out", "/dev/stdout"],
                            capture_output=True, text=True)
         print(r.stdout[-4000:])
         try:
             res = json.loads(r.stdout)
         except ValueError:
+            print("exit status:", r.returncode, r.stderr[-2000:])
+            if payload.get("exit_status") is not None and r.returncode == payload["exit_status"]:
+                print("VIOLATION property=%s replay=%s" % (payload["property"], path))
+                return 1
             return 3
         for v in res.get("violations", []):
             print("VIOLATION property=%s replay=%s" % (v.get("property", payload["property"]), path))
